@@ -323,6 +323,9 @@ def _match(f, k):
         elif key == "tag":
             if want not in (f.get("tags") or []):
                 return False
+        elif key == "tag_regex":
+            if not any(re.search(want, t) for t in (f.get("tags") or [])):
+                return False
         elif key == "err_regex":
             got = f.get("got") or {}
             text = (got.get("err") or "") + (got.get("panic") or "")
